@@ -29,9 +29,17 @@ fn install_hooks() {
     *parking_lot::VERIF_ON_TIMED.get() = Some(on_timed);
 }
 /// timed lock on a held mutex: the solver decides whether the run completes within the time-out
+/// outcome of a timed lock attempt on a held mutex: 0/1/2 fixed per harness instance, 3 = symbolic
+static mut TIMED_MODE: u8 = 3;
 fn on_timed() -> parking_lot::Timed {
-    let k = sym::u8_();
-    assume(k < 3);
+    let mode = unsafe { *std::ptr::addr_of!(TIMED_MODE) };
+    let k = if mode < 3 {
+        mode
+    } else {
+        let k = sym::u8_();
+        assume(k < 3);
+        k
+    };
     match k {
         0 => {
             let ran = rayon::verif_run_pending();
@@ -50,17 +58,22 @@ fn on_timed() -> parking_lot::Timed {
 // ---------------------------------------------------------------------------------------------
 // C20: active_injectors == live handles of the current stream
 // ---------------------------------------------------------------------------------------------
-pub fn injector_count<const STEPS: usize>() {
+pub fn injector_count<const STEPS: usize>(code: u32) {
     install_hooks();
     let mut n: Nucleo<u32> = Nucleo::new(Config::DEFAULT, notify_fn(), Some(1), 1);
     let mut handles: [Option<Injector<u32>>; 3] = [None, None, None];
     let mut gen = [0u8; 3];
     let mut cur = 0u8;
     check!(n.active_injectors() == 0, "C20 a fresh matcher has no active injector");
+    // operation KINDS are concrete per harness instance (base-6 digits of `code`): with symbolic
+    // kinds CBMC loses the concrete lengths of the pattern / match vectors across the merge and
+    // does not finish; the parameters (which slot, restart flag, whether a pending run completes,
+    // timed-lock outcome) are solver variables
+    let mut code = code;
     let mut step = 0;
     while step < STEPS {
-        let op = sym::u8_();
-        assume(op < 6);
+        let op = (code % 6) as u8;
+        code /= 6;
         let k = sym::u8_() as usize;
         assume(k < 3);
         match op {
@@ -123,19 +136,81 @@ fn fill(v: &u32, cols: &mut [Utf32String]) {
 
 /// snapshot facts every tick must leave behind (C06, the parts that do not need scores)
 fn check_snapshot(n: &Nucleo<u32>, completed: u32) {
+    check_snapshot_base(n, completed, 100)
+}
+
+/// a tick with the C19 obligations around it: `completed` = pushes of the current stream that had
+/// returned before the call
+fn tick_checked(n: &mut Nucleo<u32>, timeout: u64, completed: u32, base: u32) -> Status {
+    // with writers in flight the completed pushes are the ghost set, not a prefix
+    let completed = unsafe {
+        if *std::ptr::addr_of!(USE_MASK) {
+            (*std::ptr::addr_of!(PUBLISHED)).count_ones()
+        } else {
+            completed
+        }
+    };
+    let before_count = n.snapshot().item_count();
+    let before_matches: Vec<crate::Match> = n.snapshot().matches().to_vec();
+    let before_atoms = n.snapshot().pattern().column_pattern(0).atoms.len();
+    let st = n.tick(timeout);
+    if !st.changed {
+        let s = n.snapshot();
+        check!(s.item_count() == before_count, "C19 a tick that reports 'unchanged' leaves the item count as it was");
+        check!(s.matches().len() == before_matches.len(), "C19 a tick that reports 'unchanged' leaves the matches as they were (length)");
+        let mut i = 0;
+        while i < s.matches().len() && i < before_matches.len() {
+            check!(s.matches()[i] == before_matches[i], "C19 a tick that reports 'unchanged' leaves the matches as they were");
+            i += 1;
+        }
+        check!(s.pattern().column_pattern(0).atoms.len() == before_atoms, "C19 a tick that reports 'unchanged' leaves the snapshot pattern as it was");
+    }
+    if !st.running {
+        check!(n.snapshot().item_count() >= completed, "C19 a tick that reports 'not running' accounts for every item whose push completed before the call");
+        check!(n.snapshot().pattern().column_pattern(0).atoms == n.pattern.column_pattern(0).atoms, "C19 a tick that reports 'not running' leaves the snapshot pattern equal to the matcher's current pattern");
+        check!(!rayon::verif_pending(), "C19 a tick that reports 'not running' leaves no background run behind");
+    }
+    check_snapshot_base(n, completed, base);
+    std::mem::forget(before_matches);
+    st
+}
+
+/// ghost: bit i set = the push of index i (current stream) has completed
+static mut PUBLISHED: u32 = 0;
+static mut USE_MASK: bool = false;
+fn published(i: u32, completed: u32) -> bool {
+    unsafe {
+        if *std::ptr::addr_of!(USE_MASK) {
+            i < 32 && (*std::ptr::addr_of!(PUBLISHED) >> i) & 1 == 1
+        } else {
+            i < completed
+        }
+    }
+}
+fn set_published(i: u32) {
+    unsafe {
+        *std::ptr::addr_of_mut!(USE_MASK) = true;
+        *std::ptr::addr_of_mut!(PUBLISHED) |= 1 << i;
+    }
+}
+
+fn check_snapshot_base(n: &Nucleo<u32>, completed: u32, base: u32) {
     let s = n.snapshot();
     let m = s.matches();
     check!(s.matched_item_count() as usize == m.len(), "C06 matched_item_count is the number of matches");
     check!(m.len() as u32 <= s.item_count(), "C06 there are no more matches than processed items");
-    check!(s.item_count() <= completed, "C06 the reported item count never exceeds the number of items whose push completed");
+    let completed_n = unsafe {
+        if *std::ptr::addr_of!(USE_MASK) { (*std::ptr::addr_of!(PUBLISHED)).count_ones() } else { completed }
+    };
+    check!(s.item_count() <= completed_n, "C06 the reported item count never exceeds the number of items whose push completed");
     let mut i = 0;
     while i < m.len() {
-        check!(m[i].idx < completed, "C06 every match refers to an item whose push has completed");
+        check!(published(m[i].idx, completed), "C06 every match refers to an item whose push has completed");
         let it = s.get_matched_item(i as u32);
         check!(it.is_some(), "C06 every match can be dereferenced");
         if let Some(it) = it {
             // pointer validity of the item and its columns is checked by reading them
-            check!(*it.data == 100 + m[i].idx, "C06 a match dereferences to the item injected at that index");
+            check!(*it.data == base + m[i].idx, "C06 a match dereferences to the item injected at that index of the snapshot's stream");
             check!(it.matcher_columns.len() == 1, "C06 a matched item carries its matcher columns");
         }
         let mut j = 0;
@@ -153,10 +228,12 @@ fn check_snapshot(n: &Nucleo<u32>, completed: u32) {
 // ---------------------------------------------------------------------------------------------
 // C13: a tick that reports 'running' is followed by a notification
 // ---------------------------------------------------------------------------------------------
-pub fn wakeup<const ITEMS: usize>() {
+pub fn wakeup<const ITEMS: usize>(timed: u8) {
     install_hooks();
+    unsafe { *std::ptr::addr_of_mut!(TIMED_MODE) = timed };
     let mut n: Nucleo<u32> = Nucleo::new(Config::DEFAULT, notify_fn(), Some(1), 1);
     let inj = n.injector();
+    unsafe { *std::ptr::addr_of_mut!(USE_MASK) = false };
     let mut k = 0;
     while k < ITEMS {
         let before = notify_count();
@@ -167,24 +244,186 @@ pub fn wakeup<const ITEMS: usize>() {
     }
     // first tick: any timeout behaviour (solver-chosen inside the timed lock)
     let c0 = notify_count();
-    let st = n.tick(10);
-    check_snapshot(&n, ITEMS as u32);
+    let st = tick_checked(&mut n, 10, ITEMS as u32, 100);
     if st.running {
         // the event loop now sleeps until notified: whatever is still pending completes
         let _ = rayon::verif_run_pending();
         check!(notify_count() > c0, "C13 a tick that reports 'running' is followed by a notification once the background run has finished");
         cover!(parking_lot::VERIF_TIMEOUTS.get().clone() > 0, "timed lock attempt failed");
-    } else {
-        check!(!rayon::verif_pending(), "C19 a tick that reports 'not running' leaves no background run behind");
     }
     cover!(st.running, "tick reports running");
     cover!(!st.running, "tick reports not running");
     let _ = rayon::verif_run_pending();
-    // the notified event loop ticks again and must see every item
-    let st2 = n.tick(10);
-    check_snapshot(&n, ITEMS as u32);
+    // a further item arrives while the finished run has not been collected yet: the next tick
+    // both collects (changed) and starts another run (running) - and must be followed by a notify
+    let mut total = ITEMS as u32;
+    if sym::bool_() {
+        let idx = inj.push(100 + total, fill);
+        check!(idx == total, "C08 pushes receive consecutive indices");
+        total += 1;
+    }
+    let c1 = notify_count();
+    let st2 = tick_checked(&mut n, 10, total, 100);
+    if st2.running {
+        let _ = rayon::verif_run_pending();
+        check!(notify_count() > c1, "C13 a tick that reports 'running' is followed by a notification once the background run has finished (second tick)");
+    }
+    cover!(st2.running && st2.changed, "tick that both collected results and started another run");
     let _ = rayon::verif_run_pending();
+    let st3 = tick_checked(&mut n, 10, total, 100);
+    let _ = rayon::verif_run_pending();
+    if !st3.running {
+        check!(n.snapshot().item_count() == total && n.snapshot().matched_item_count() == total, "C07 once quiescent, the snapshot holds every injected item (empty pattern matches everything)");
+    }
     std::mem::forget(inj);
+    std::mem::forget(n);
+}
+
+// ---------------------------------------------------------------------------------------------
+// C06 with writers in flight: a batch writer whose iterator is slow. `extend` reserves all its
+// indices up front and publishes item by item; whatever the harness does inside `next()` happens
+// while the remaining indices are reserved-but-unpublished - exactly a writer thread paused
+// between reservation and publication, with the UI thread ticking meanwhile. Every such
+// schedule is a real schedule.
+// ---------------------------------------------------------------------------------------------
+struct SlowWriter {
+    n: *mut Nucleo<u32>,
+    first_idx: u32,
+    yielded: u32,
+    total: u32,
+}
+impl Iterator for SlowWriter {
+    type Item = u32;
+    fn next(&mut self) -> Option<u32> {
+        // the item yielded by the previous call has been published by now
+        if self.yielded > 0 {
+            set_published(self.first_idx + self.yielded - 1);
+        }
+        if self.yielded == self.total {
+            return None;
+        }
+        // UI thread activity while this writer sits between reservation and publication
+        let n = unsafe { &mut *self.n };
+        let _ = tick_checked(n, 10, 0, 100);
+        if sym::bool_() {
+            let _ = rayon::verif_run_pending();
+            let _ = tick_checked(n, 10, 0, 100);
+        }
+        let v = 100 + self.first_idx + self.yielded;
+        self.yielded += 1;
+        Some(v)
+    }
+}
+impl ExactSizeIterator for SlowWriter {
+    fn len(&self) -> usize {
+        self.total as usize
+    }
+}
+
+pub fn inflight_writer<const PRE: usize, const BATCH: usize>() {
+    install_hooks();
+    let mut n: Nucleo<u32> = Nucleo::new(Config::DEFAULT, notify_fn(), Some(1), 1);
+    let inj = n.injector();
+    unsafe {
+        *std::ptr::addr_of_mut!(PUBLISHED) = 0;
+        *std::ptr::addr_of_mut!(USE_MASK) = true;
+    }
+    let mut k = 0;
+    while k < PRE {
+        let idx = inj.push(100 + k as u32, fill);
+        set_published(idx);
+        k += 1;
+    }
+    let w = SlowWriter { n: &mut n as *mut _, first_idx: PRE as u32, yielded: 0, total: BATCH as u32 };
+    inj.extend(w, fill);
+    // everything is published now; the matcher must converge
+    let _ = rayon::verif_run_pending();
+    let st = tick_checked(&mut n, 10, 0, 100);
+    let _ = rayon::verif_run_pending();
+    let st2 = tick_checked(&mut n, 10, 0, 100);
+    let _ = rayon::verif_run_pending();
+    let st3 = tick_checked(&mut n, 10, 0, 100);
+    if !st3.running {
+        check!(n.snapshot().item_count() as usize == PRE + BATCH && n.snapshot().matches().len() == PRE + BATCH, "C07 once no writer is active and tick reports 'not running' the snapshot holds every injected item");
+    }
+    cover!(!st3.running, "quiescent at the end");
+    std::mem::forget(inj);
+    std::mem::forget(n);
+}
+
+// ---------------------------------------------------------------------------------------------
+// C12: restart isolates the new item stream from the old one
+// ---------------------------------------------------------------------------------------------
+pub fn restart_isolation<const OLD: usize, const NEW: usize>() {
+    install_hooks();
+    let mut n: Nucleo<u32> = Nucleo::new(Config::DEFAULT, notify_fn(), Some(1), 1);
+    unsafe { *std::ptr::addr_of_mut!(USE_MASK) = false };
+    let old = n.injector();
+    let mut k = 0;
+    while k < OLD {
+        old.push(100 + k as u32, fill);
+        k += 1;
+    }
+    let _ = tick_checked(&mut n, 10, OLD as u32, 100);
+    // the run over the old stream completes before the restart, or is still pending (solver's choice)
+    if sym::bool_() {
+        let _ = rayon::verif_run_pending();
+        let _ = tick_checked(&mut n, 10, OLD as u32, 100);
+    }
+    let before_count = n.snapshot().item_count();
+    let before_len = n.snapshot().matches().len();
+    let clear = sym::bool_();
+    n.restart(clear);
+    if clear {
+        check!(n.snapshot().item_count() == 0 && n.snapshot().matches().is_empty(), "C12 restart(true) empties the snapshot immediately");
+    } else {
+        check!(n.snapshot().item_count() == before_count && n.snapshot().matches().len() == before_len, "C12 restart(false) leaves the snapshot exactly as it was");
+        check_snapshot_base(&n, OLD as u32, 100);
+    }
+    // the old injector keeps accepting items, without any effect on the matcher
+    let idx = old.push(100 + OLD as u32, fill);
+    check!(idx as usize == OLD && old.get(idx).is_some(), "C12 an injector created before the restart keeps accepting items");
+    let new = n.injector();
+    let mut k = 0;
+    while k < NEW {
+        new.push(200 + k as u32, fill);
+        k += 1;
+    }
+    // ticks after the restart: the snapshot is either still the untouched old one or purely new
+    let mut round = 0;
+    while round < 2 {
+        let st = n.tick(10);
+        let s = n.snapshot();
+        let m = s.matches();
+        let mut olds = 0;
+        let mut news = 0;
+        let mut i = 0;
+        while i < m.len() {
+            if let Some(it) = s.get_matched_item(i as u32) {
+                if *it.data >= 200 {
+                    news += 1;
+                    check!(*it.data == 200 + m[i].idx, "C12 a match of the new stream dereferences to the item injected at that index");
+                } else {
+                    olds += 1;
+                }
+            }
+            i += 1;
+        }
+        check!(olds == 0 || news == 0, "C12 items of the two streams are never mixed in one snapshot");
+        if olds > 0 {
+            check!(!clear && m.len() == before_len && s.item_count() == before_count, "C12 until a run over the new stream completes the snapshot stays exactly as it was (and only without clear_snapshot)");
+        } else {
+            check!(s.item_count() as usize <= NEW && m.len() <= NEW, "C12 no item injected before the restart - or through an old injector afterwards - appears in a snapshot of the new stream");
+        }
+        if !st.running && !rayon::verif_pending() {
+            check!(s.item_count() as usize == NEW, "C07 once quiescent after a restart, the snapshot holds exactly the items of the new stream");
+        }
+        let _ = rayon::verif_run_pending();
+        round += 1;
+    }
+    cover!(clear, "restart with clear_snapshot");
+    cover!(!clear, "restart without clear_snapshot");
+    std::mem::forget((old, new));
     std::mem::forget(n);
 }
 
